@@ -11,18 +11,18 @@ Variable devf : devfun.
 (* what a tick of level lv may touch: device state of the devices in D, wakeups of the levels in L *)
 Definition framed (D : list comp) (L : list positive) (s s2 : sstate) (ob : list obs) : Prop :=
   (forall c, ~ In c D -> lookup c (s_dc s2) = lookup c (s_dc s) /\ lookup c (s_n s2) = lookup c (s_n s)) /\
-  (forall l, ~ In l L -> wake_of s2 l = wake_of s l) /\
+  (forall l, ~ In l L -> wake_of s2 l = wake_of s l /\ int_of s2 l = int_of s l /\ memb l (s_ticked s2) = memb l (s_ticked s)) /\
   (forall o, In o ob -> In (obs_comp o) D).
 
 Lemma framed_refl D L s : framed D L s s [].
-Proof. split; [intros; split; reflexivity|]. split; [intros; reflexivity | intros o []]. Qed.
+Proof. split; [intros; split; reflexivity|]. split; [intros; repeat split; reflexivity | intros o []]. Qed.
 
 Lemma framed_trans D L s1 s2 s3 ob1 ob2 :
   framed D L s1 s2 ob1 -> framed D L s2 s3 ob2 -> framed D L s1 s3 (ob1 ++ ob2).
 Proof.
   intros [A1 [B1 C1]] [A2 [B2 C2]]. split; [|split].
   - intros c Hc. destruct (A1 c Hc) as [X1 Y1]. destruct (A2 c Hc) as [X2 Y2]. split; congruence.
-  - intros l Hl. rewrite (B2 l Hl). apply B1. exact Hl.
+  - intros l Hl. destruct (B1 l Hl) as [X1 [Y1 Z1]]. destruct (B2 l Hl) as [X2 [Y2 Z2]]. repeat split; congruence.
   - intros o Ho. apply in_app_iff in Ho. destruct Ho as [Ho|Ho]; [apply C1 | apply C2]; exact Ho.
 Qed.
 
@@ -55,7 +55,7 @@ Proof.
   destruct (Pos.eqb_spec c ext_id) as [|He]; [exact Hnil|]. destruct (Pos.eqb_spec c exp_id) as [|Hx]; [exact Hnil|].
   assert (Hwake : forall s1 w ob1, framed D L (ta_s a) s1 ob1 -> framed D L (ta_s a) (set_wake s1 lv w) ob1).
   { intros s1 w ob1 [A [B C]]. split; [exact A|]. split; [|exact C].
-    intros l Hl. rewrite wake_of_set_wake_other by (intros E; subst l; contradiction). apply B. exact Hl. }
+    intros l Hl. rewrite wake_of_set_wake_other by (intros E; subst l; contradiction). apply (B l Hl). }
   destruct k as [|lv'].
   - specialize (Hdev He Hx eq_refl).
     unfold dev_update.
@@ -69,7 +69,7 @@ Proof.
     { split; [|split].
       - intros c0 Hc0. assert (c0 <> c) by (intros E; subst c0; contradiction).
         cbn [s_dc s_n]. rewrite !lookup_upd_other by assumption. split; reflexivity.
-      - intros l _. reflexivity.
+      - intros l _. repeat split; reflexivity.
       - intros o [E|[]]. subst o. exact Hdev. }
     exists [(c, time, inputs)]. destruct ca as [w|]; cbn [ta_obs ta_s]; (split; [reflexivity|]); [apply Hwake|]; exact Hf.
   - specialize (Hsys lv' eq_refl time (get_d c (ta_in a)) (ta_s a)).
@@ -133,9 +133,14 @@ Proof.
   - cbn [ta_obs ta_s app] in E1, F1. rewrite E1.
     destruct F1 as [A [B C]]. split; [|split].
     + intros c Hc. apply (A c Hc).
-    + intros l Hl. rewrite (B l Hl). unfold s1.
-      change (wake_of (log_tick (mark_ticked (set_int (set_wake s lv ?w) lv []) lv) lv time roots) l) with (wake_of (set_wake s lv w) l).
-      apply wake_of_set_wake_other. intros E. subst l. contradiction.
+    + intros l Hl. assert (Hne : l <> lv) by (intros E; subst l; contradiction).
+      destruct (B l Hl) as [B1 [B2 B3]]. rewrite B1, B2, B3. unfold s1. split; [|split].
+      * change (wake_of (log_tick (mark_ticked (set_int (set_wake s lv ?w) lv []) lv) lv time roots) l) with (wake_of (set_wake s lv w) l).
+        apply wake_of_set_wake_other. exact Hne.
+      * unfold int_of, log_tick, mark_ticked, set_int, set_wake. cbn [s_int]. apply get_d_upd_other. exact Hne.
+      * unfold log_tick, mark_ticked, set_int, set_wake. cbn [s_ticked].
+        destruct (memb lv (s_ticked s)); [reflexivity|]. cbn [memb existsb].
+        destruct (Pos.eqb_spec l lv); [contradiction | reflexivity].
     + exact C.
 Qed.
 End Frame.
